@@ -78,6 +78,18 @@ TestsFor(a, b) ==
                  ot == <<a, b>>[o]
              IN {<<Test("t", e, IF IsBuildable(ot) THEN <<o>> ELSE <<>>, IF ot.kind = "custom" THEN <<o>> ELSE <<>>, bn)>>
                    : bn \in BOOLEAN})
+\* F4: two DIFFERENT targets with the SAME NAME, neither built by default, both prerequisites of tests: in two
+\* directories, in a subproject and the main project, an executable and a (two-output) custom target
+NB(kind, subdir, sp, i, outs) ==
+    T(kind, "foo", subdir, sp, IF kind = "exe" THEN <<"t" \o ToString(i) \o ".c">> ELSE <<>>, <<>>, <<>>, "false", FALSE, outs, <<>>)
+SameNamePairs == {<<NB("exe", "sub", "", 1, <<>>), NB("exe", "", "", 2, <<>>)>>,
+                  <<NB("exe", "", "sp1", 1, <<>>), NB("exe", "", "", 2, <<>>)>>,
+                  <<NB("exe", "", "", 1, <<>>), NB("custom", "", "", 2, <<"foo.dat", "foo2.dat">>)>>,
+                  <<NB("exe", "sub", "", 1, <<>>), NB("custom", "", "", 2, <<"foo.dat", "foo2.dat">>)>>}
+SameNameTests(pr, bn) ==
+    {<<Test("t1", 1, <<2>>, <<>>, bn)>>, <<Test("t1", 1, <<>>, <<2>>, bn)>>, <<Test("t1", 1, <<>>, <<>>, bn), Test("t2", 1, <<2>>, <<>>, bn)>>}
+    \cup (IF pr[2].kind = "exe" THEN {<<Test("t1", 1, <<>>, <<>>, bn), Test("t2", 2, <<>>, <<>>, bn)>>} ELSE {})
+F4 == UNION {UNION {{P(l, "shared", pr, x) : l \in Layouts} : x \in SameNameTests(pr, bn)} : <<pr, bn>> \in SameNamePairs \X BOOLEAN}
 F2 == UNION {UNION {UNION {{P(l, dl, <<a, b>>, x) : l \in Layouts, dl \in Deflibs \ {"static"}} : x \in TestsFor(a, b)}
                       : b \in Consumers(a, rel)} : <<a, rel>> \in Providers \X BOOLEAN}
 
@@ -91,7 +103,7 @@ Expectations(p) ==
 VARIABLES fam, p, built, started
 vars == <<fam, p, built, started>>
 Init == /\ \/ fam = "F1" /\ p \in F1
-           \/ fam = "F2" /\ p \in F2 \cup F3
+           \/ fam = "F2" /\ p \in F2 \cup F3 \cup F4
         /\ built = {}
         /\ started = FALSE
 Start == ~started /\ started' = TRUE /\ UNCHANGED <<fam, p, built>>
@@ -142,7 +154,9 @@ EmitFamily == TLCGet("stats").diameter >= 0 /\
               LET s1 == SetToSeq(F1)
                   s2 == SetToSeq(F2)
                   s3 == SetToSeq(F3)
+                  s4 == SetToSeq(F4)
               IN JsonSerialize("family.json", [f1 |-> [i \in DOMAIN s1 |-> WithX(s1[i])],
                                                f2 |-> [i \in DOMAIN s2 |-> WithX(s2[i])],
-                                               f3 |-> [i \in DOMAIN s3 |-> WithX(s3[i])]])
+                                               f3 |-> [i \in DOMAIN s3 |-> WithX(s3[i])],
+                                               f4 |-> [i \in DOMAIN s4 |-> WithX(s4[i])]])
 =============================================================================
